@@ -470,12 +470,30 @@ def gen_history(rng):
     return inp
 
 
+def gen_transform(rng):
+    """export -> transformation -> export of the SAME netlist: a shared non-leaf cell whose name has
+    capitals, instantiated twice, beside sibling cells already named like the copies a transformation
+    makes (`<identifier in another case>_sdn_unique_<counter + offset>`); then uniquify / flatten /
+    clone-and-add; the second export must satisfy C17 in every scope."""
+    body = "".join(rng.choice("abqxz") for _ in range(rng.randint(1, 4)))
+    shared = body.capitalize()
+    if rng.random() < 0.4:
+        shared += rng.choice(HIST_SPECIAL) + rng.choice(["0", "x", "Lo"])
+    if rng.random() < 0.2:
+        shared = shared.upper()
+    return {"level": "transform", "op": rng.choice(["uniquify", "uniquify", "flatten", "clone_add"]),
+            "shared": shared, "offsets": sorted(rng.sample(range(0, 6), rng.randint(1, 4))),
+            "sib_case": rng.choice(["lower", "lower", "upper", "swap"]), "n_inst": rng.randint(2, 3)}
+
+
 def gen_input(rng, tier, level=None):
     if level is None:
         r0 = rng.random()
-        level = "free" if r0 < 0.58 else ("netlist" if r0 < 0.94 else "history")
+        level = "free" if r0 < 0.58 else ("netlist" if r0 < 0.91 else ("history" if r0 < 0.97 else "transform"))
     if level == "history":
         return gen_history(rng)
+    if level == "transform":
+        return gen_transform(rng)
     quote_p = 0.0015
     if level == "free":
         n = rng.choice([1, 2, 2, 3, 3, 4, 5, 6, 8, 12]) if rng.random() < 0.93 else rng.randint(13, 40)
@@ -1392,6 +1410,139 @@ class Runner:
                 pass
         return cur
 
+    def run_transform(self, inp, report=True):
+        """export -> uniquify / flatten / clone-and-add -> export of the same netlist; the full oracle (legal,
+        case-insensitively unique per scope, rename written, file reads back with the names) on the second export."""
+        import spydrnet as sdn
+        import spydrnet.uniquify as uq
+        from spydrnet.flatten import flatten
+        _set_policy("DEFAULT")
+        op = inp["op"]
+        sigs = set()
+        d = tempfile.mkdtemp(dir=self.tmpdir)
+
+        def fail(sig, detail):
+            sigs.add(sig)
+            if report:
+                self.res.dist("P.fail." + sig)
+                if self.first(sig):
+                    self.res.spec_failure(sig, inp, detail)
+        try:
+            ident = _sanitised(inp["shared"])
+            stem = {"lower": ident.lower(), "upper": ident.upper(), "swap": ident.swapcase()}[inp["sib_case"]]
+            if stem == ident:
+                stem = ident.lower() if ident != ident.lower() else ident.upper()
+            uid = getattr(uq, "MOD_NAME_UID", 0)
+            try:
+                nl = sdn.Netlist(name="design")
+                prims = nl.create_library(name="prims")
+                leaf = prims.create_definition(name="LEAF")
+                lp = leaf.create_port(name="p")
+                lp.direction = sdn.IN
+                lp.create_pins(1)
+                work = nl.create_library(name="work")
+                for off in inp["offsets"]:
+                    o = work.create_definition(name="%s_sdn_unique_%d" % (stem, uid + off))
+                    q = o.create_port(name="q")
+                    q.direction = sdn.IN
+                    q.create_pins(1)
+                sub = work.create_definition(name=inp["shared"])
+                a = sub.create_port(name="a")
+                a.direction = sdn.IN
+                a.create_pins(1)
+                inner = sub.create_child(name="inner", reference=leaf)
+                net = sub.create_cable(name="n")
+                net.create_wire()
+                net.wires[0].connect_pin(a.pins[0])
+                net.wires[0].connect_pin(inner.pins[lp.pins[0]])
+                top = work.create_definition(name="top")
+                for k in range(inp.get("n_inst", 2)):
+                    top.create_child(name="u%d" % (k + 1), reference=sub)
+                nl.top_instance = sdn.Instance(name="top_i")
+                nl.top_instance.reference = top
+                sdn.compose(nl, os.path.join(d, "a.edf"))          # first export: identifiers are assigned
+            except Exception as e:
+                self.res.dist("transform.setup-failed." + exc_family(e))
+                return sigs
+            try:
+                if op == "uniquify":
+                    uq.uniquify(nl)
+                elif op == "flatten":
+                    flatten(nl)
+                else:
+                    c = sub.clone()
+                    c.name = inp["shared"] + "_copy"
+                    work.add_definition(c)
+            except Exception as e:
+                self.res.dist("transform.%s.refused-%s (the transformation itself: other properties)" % (op, exc_family(e)))
+                return sigs
+            f2 = os.path.join(d, "b.edf")
+            try:
+                sdn.compose(nl, f2)
+            except Exception as e:
+                fail("transform.%s.compose-raised-%s" % (op, exc_family(e)), "second export raised " + repr(e)[:160])
+                return sigs
+            finally:
+                _set_policy("DEFAULT")
+            # every scope of the netlist after the second export
+            scopes = [("libraries", list(nl.libraries))]
+            for lib in nl.libraries:
+                scopes.append(("cells of %s" % lib.name, list(lib.definitions)))
+                for df in lib.definitions:
+                    scopes.append(("ports of %s" % df.name, list(df.ports)))
+                    scopes.append(("cables of %s" % df.name, list(df.cables)))
+                    scopes.append(("instances of %s" % df.name, list(df.children)))
+            for what, objs in scopes:
+                ps = [{"name": x.name, "ident": None} for x in objs]
+                obs = _observe(objs, ps)
+                seen = {}
+                for k, o in enumerate(obs):
+                    kind = illegal_kind(o["ident"])
+                    if kind is not None:
+                        fail("transform.%s.identifier-%s" % (op, kind), "%s: %r has the identifier %r" % (what, o["name"], o["ident"]))
+                        continue
+                    for f in written_forms(o["ident"], o.get("bits") or []):
+                        key = fold(f)
+                        if key in seen and seen[key][0] != k:
+                            fail("transform.%s.identifiers-collide" % op,
+                                 "%s: %r and %r are written as %r and %r, equal ignoring case" % (what, obs[seen[key][0]]["name"], o["name"], seen[key][1], f))
+                        seen.setdefault(key, (k, f))
+                for sig, k, detail in oracle_tokens(obs):
+                    fail("transform.%s.original-name-not-written" % op, "%s: %s" % (what, detail))
+            if sigs:
+                return sigs
+            try:
+                n3 = sdn.parse(f2)
+            except Exception as e:
+                fail("transform.%s.reparse-raised-%s" % (op, exc_family(e)), repr(e)[:200])
+                return sigs
+            finally:
+                _set_policy("DEFAULT")
+            want = sorted(l.name for l in nl.libraries)
+            got = sorted(l.name for l in n3.libraries)
+            if want != got:
+                fail("transform.%s.reparse-names-differ" % op, "libraries written %r re-read %r" % (want, got))
+                return sigs
+            for lib in nl.libraries:
+                l3 = next(n3.get_libraries(lib.name), None)
+                w = sorted(x.name for x in lib.definitions)
+                g = sorted(x.name for x in l3.definitions) if l3 is not None else None
+                if w != g:
+                    fail("transform.%s.reparse-names-differ" % op, "cells of %s written %r re-read %r" % (lib.name, w[:8], (g or [])[:8]))
+                    return sigs
+                for df in lib.definitions:
+                    d3 = next(l3.get_definitions(df.name), None)
+                    for attr in ("ports", "cables", "children"):
+                        w = sorted(x.name for x in getattr(df, attr))
+                        g = sorted(x.name for x in getattr(d3, attr)) if d3 is not None else None
+                        if w != g:
+                            fail("transform.%s.reparse-names-differ" % op, "%s of %s written %r re-read %r" % (attr, df.name, w[:8], (g or [])[:8]))
+                            return sigs
+            self.res.dist("transform.%s.ok" % op)
+            return sigs
+        finally:
+            shutil.rmtree(d, ignore_errors=True)
+
     def run_chain(self, inp, report=True):
         """`n` siblings x, x_sdn_1_, ..., x_sdn_<n-1>_ and one more named X: one round of
         `_conflicts_fix` per sibling (the python recursion limit is not part of the property)."""
@@ -1442,11 +1593,13 @@ class Runner:
             return self.run_chain(inp, report)
         if inp.get("level") == "history":
             return self.run_history(inp, report)
+        if inp.get("level") == "transform":
+            return self.run_transform(inp, report)
         return self.run_free(inp, report)
 
 
 def nontrivial(inp):
-    if inp.get("level") in ("netlist", "chain", "history"):
+    if inp.get("level") in ("netlist", "chain", "history", "transform"):
         return True
     s = inp["sibs"]
     return len(s) >= 2
@@ -1455,6 +1608,9 @@ def nontrivial(inp):
 def tags(res, inp):
     if inp.get("level") == "chain":
         res.dist("level.chain.%d" % inp["n"])
+        return
+    if inp.get("level") == "transform":
+        res.dist("level.transform." + inp["op"])
         return
     if inp.get("level") == "history":
         res.dist("level.history")
@@ -1574,7 +1730,7 @@ def exhaustive_shard(seed, idx, nsh, tier, deadline):
 
 
 def _short(inp):
-    if inp.get("level") in ("chain", "history"):
+    if inp.get("level") in ("chain", "history", "transform"):
         return inp
 
     def sh(s):
